@@ -259,7 +259,9 @@ def __order_clauses(c: Formula) -> int:
     if isinstance(c, And) or isinstance(c, Or):
         return 0
     elif isinstance(c, Not):
-        return c.c
+        # The negated formula is not necessarily a variable yet (e.g., a
+        # double negation that De Morgan's laws have not reached).
+        return c.c if isinstance(c.c, int) else 0
     else:
         return c
 
